@@ -164,13 +164,13 @@ def polyCase (thr : Nat) (key : String) (a : Array String) (r : Array String) : 
     let A ← P 0; let B ← P 1; let lo ← N 2; let hi ← N 3
     if lo < 0 || hi < lo then pure { pre := false, spec := true } else
     let w : List K := if A.isEmpty || B.isEmpty then [] else smulWindow A B lo.toNat (hi - lo + 1).toNat
-    pure (exact1 (← RP 0) w)
+    pure (exact1 (← RP 0) w (some (Givaro.Model.Poly.mulWindow A B lo.toNat hi.toNat)))
   | "midmul" | "stdmidmul" | "karamidmul" => do
     let A ← P 0; let B ← P 1
     if A.length < B.length || B.isEmpty then pure { pre := false, spec := true } else
     if key == "karamidmul" && A.length + 1 != 2 * B.length then pure { pre := false, spec := true } else
     pure (exact1 (← RP 0) (smulWindow A B (B.length - 1) (A.length - B.length + 1)))
-  | "pow" => do let A ← P 0; let n ← N 1; pure (exact1 (← RP 0) (spow A n.toNat))
+  | "pow" => do let A ← P 0; let n ← N 1; pure (exact1 (← RP 0) (spow A n.toNat) (some (Givaro.Model.Poly.pow thr A n.toNat)))
   | "powmod" => do
     let A ← P 0; let n ← N 1; let U ← P 2
     if (norm U).isEmpty || n < 0 then pure { pre := false, spec := true } else
@@ -179,15 +179,23 @@ def polyCase (thr : Nat) (key : String) (a : Array String) (r : Array String) : 
   | "div" | "divin" => do
     let A ← P 0; let B ← P 1; let q ← RP 0
     if (norm B).isEmpty then pure { pre := false, spec := true } else
-    pure { spec := chkQuo A B q.1 && degOk q }
-  | "mod" | "modin" => do
+    let m := if key == "div" then Givaro.Model.Poly.div thr A B else Givaro.Model.Poly.divin thr A B
+    pure { spec := chkQuo A B q.1 && degOk q, model := eqv m q.1, info := renderPoly (norm m) }
+  | "mod" => do
+    let A ← P 0; let B ← P 1; let q ← RP 0
+    if (norm B).isEmpty then pure { pre := false, spec := true } else
+    let m := Givaro.Model.Poly.mod thr A B
+    pure { spec := chkRem A B q.1 && degOk q, model := eqv m q.1, info := renderPoly (norm m) }
+  | "modin" => do
     let A ← P 0; let B ← P 1; let q ← RP 0
     if (norm B).isEmpty then pure { pre := false, spec := true } else
     pure { spec := chkRem A B q.1 && degOk q }
   | "divmod" | "divmodin" => do
     let A ← P 0; let B ← P 1; let q ← RP 0; let rr ← RP 1
     if (norm B).isEmpty then pure { pre := false, spec := true } else
-    pure { spec := chkDivmod A B q.1 rr.1 && degOk q && degOk rr }
+    let m := if key == "divmod" then Givaro.Model.Poly.divmod thr A B else Givaro.Model.Poly.divmodin thr A B
+    pure { spec := chkDivmod A B q.1 rr.1 && degOk q && degOk rr, model := eqv m.1 q.1 && eqv m.2 rr.1,
+           info := renderPoly (norm m.1) ++ " " ++ renderPoly (norm m.2) }
   | "pdivmod" => do
     let A ← P 0; let B ← P 1; let q ← RP 0; let rr ← RP 1; let m ← r[4]? >>= FieldIO.parse
     if (norm B).isEmpty then pure { pre := false, spec := true } else
@@ -200,12 +208,16 @@ def polyCase (thr : Nat) (key : String) (a : Array String) (r : Array String) : 
     let A ← P 0; let B ← P 1; let v ← r[0]? >>= parseHexInt
     pure { spec := (v != 0) == divides B A }
   -- gcd family
-  | "gcd" => do let A ← P 0; let B ← P 1; let d ← RP 0; pure { spec := chkGcd A B d.1 && degOk d }
+  | "gcd" => do
+    let A ← P 0; let B ← P 1; let d ← RP 0
+    let m := Givaro.Model.Poly.gcd thr (A.length + B.length + 1) A B
+    pure { spec := chkGcd A B d.1 && degOk d, model := (match m with | some g => eqv g d.1 | none => false),
+           info := match m with | some g => renderPoly (norm g) | none => "loop-did-not-finish" }
   | "gcdext" => do
     let A ← P 0; let B ← P 1; let d ← RP 0; let u ← RP 1; let v ← RP 2
     if (norm A).isEmpty && (norm B).isEmpty then pure { pre := false, spec := true } else   -- needs the inverse of zero
-    -- the model of the Euclid loop, run with the reference quotient in place of `div` (the quotient is unique)
-    let m := Givaro.Model.Poly.gcdext thr (fun F G => (sdivmod F G).1) (A.length + B.length + 2) A B
+    -- the model of the Euclid loop with the model of the implementation's own division
+    let m := Givaro.Model.Poly.gcdext thr (Givaro.Model.Poly.div thr) (A.length + B.length + 2) A B
     let mOk := match m with
       | some (f, s, t) => eqv f d.1 && eqv s u.1 && eqv t v.1
       | none => false
@@ -213,11 +225,17 @@ def polyCase (thr : Nat) (key : String) (a : Array String) (r : Array String) : 
            info := match m with
              | some (f, s, t) => renderPoly (norm f) ++ " " ++ renderPoly (norm s) ++ " " ++ renderPoly (norm t)
              | none => "loop-did-not-finish" }
-  | "lcm" => do let A ← P 0; let B ← P 1; let d ← RP 0; pure { spec := chkLcm A B d.1 && degOk d }
+  | "lcm" => do
+    let A ← P 0; let B ← P 1; let d ← RP 0
+    let m := Givaro.Model.Poly.lcm thr (A.length + B.length + 1) A B
+    pure { spec := chkLcm A B d.1 && degOk d, model := (match m with | some g => eqv g d.1 | none => false),
+           info := match m with | some g => renderPoly (norm g) | none => "loop-did-not-finish" }
   | "invmod" => do
     let A ← P 0; let B ← P 1; let u ← RP 0
     if !(coprime A B) || sdeg B < 1 then pure { pre := false, spec := true } else
-    pure { spec := chkInvmod A B u.1 && degOk u }
+    let m := Givaro.Model.Poly.invmod thr (A.length + B.length + 2) A B
+    pure { spec := chkInvmod A B u.1 && degOk u, model := (match m with | some g => eqv g u.1 | none => false),
+           info := match m with | some g => renderPoly (norm g) | none => "loop-did-not-finish" }
   | "invmodunit" => do
     let A ← P 0; let B ← P 1; let u ← RP 0
     if !(coprime A B) || sdeg B < 1 then pure { pre := false, spec := true } else
@@ -229,7 +247,9 @@ def polyCase (thr : Nat) (key : String) (a : Array String) (r : Array String) : 
   | "invmodpowx" => do
     let A ← P 0; let l ← N 1; let g ← RP 0
     if l < 1 || coeff A 0 = 0 then pure { pre := false, spec := true } else
-    pure { spec := eqv ((smul g.1 A).take l.toNat) [1] && decide (sdeg g.1 < l) && degOk g }
+    let m := Givaro.Model.Poly.invmodpowx thr A l.toNat
+    pure { spec := eqv ((smul g.1 A).take l.toNat) [1] && decide (sdeg g.1 < l) && degOk g, model := eqv m g.1,
+           info := renderPoly (norm m) }
   -- definitions
   | "eval" => do
     let A ← P 0; let v ← S 1; let e ← r[0]? >>= FieldIO.parse
@@ -239,7 +259,7 @@ def polyCase (thr : Nat) (key : String) (a : Array String) (r : Array String) : 
   | "reverse" | "reversein" => do let A ← P 0; pure (exact1 (← RP 0) (sreverse A) (some (Givaro.Model.Poly.reverse A)))
   | "compose" => do
     let A ← P 0; let b ← N 1
-    if b < 1 then pure { pre := false, spec := true } else
+    if b < 0 then pure { pre := false, spec := true } else
     pure (exact1 (← RP 0) (scompose A b.toNat) (some (Givaro.Model.Poly.powerCompose A b.toNat)))
   | "setdegree" => do
     let A ← P 0; let q ← RP 0
@@ -286,6 +306,8 @@ def polyCase (thr : Nat) (key : String) (a : Array String) (r : Array String) : 
 
 def verdict (thr : Nat) (key : String) (a r : Array String) (line : String) : String :=
   if r == #["CRASH"] || r == #["EXC"] || r == #["NOFUNC"] || r == #["NOFIELD"] then "BAD result | " ++ line else
+  -- `al_<key>`: the same overload called in place (result object = polynomial operand): same contract
+  let key := if key.startsWith "al_" then (key.drop 3).toString else key
   match polyCase (K := K) thr key a r with
   | none => "BAD parse | " ++ line
   | some v =>
